@@ -718,8 +718,83 @@ def r1111(facts, res):
         res.ok(R, 'no-offset-by-search', '', 'no span bound in the .l parser is obtained by searching for the text of a piece (%d searches with a non-constant needle examined)' % n)
 
 
+def r1112(facts, res):
+    """`<A, B>re`: the start-state list is split at commas and EACH name is looked up.  Blanks around a name are not part of it
+    (the reference grammar of the list allows them), so what reaches the lookup must be a trimmed piece - trimming the list as
+    a whole leaves the blank after a comma attached to the next name, and a valid specification is refused as
+    UnknownStartState."""
+    R = 'R11.12'
+    bs = [b for b in facts.lib_bodies(['lrlex']) if b.name == 'parse_start_states' and b.kind != 'closure' and 'LexParser' in b.path]
+    if len(bs) != 1:
+        return res.lost(R, 'LexParser::parse_start_states not found (%d)' % len(bs))
+    b = bs[0]
+    bodies = [b] + list(facts.closures_of(b))
+    splits = [(x, bb, t) for x in bodies for bb, t in x.calls() if cname(t) in ('split', 'split_terminator', 'splitn')]
+    if not splits:
+        return res.ok(R, 'names-trimmed', loc_of(b), 'the list is not split by `split` here: not analysed (no instance)')
+    n, bad = 0, []
+    for x in bodies:
+        for bb, t in x.calls_named('get_start_state_by_name'):
+            n += 1
+            ok = False
+            for a in t['args'][1:]:
+                l = op_local(a)
+                if l is None or not x.lty(l).startswith('&') or 'str' not in x.lty(l):
+                    continue
+                root, projs, via = x.root(l, through=Body.THROUGH + ('trim', 'trim_matches', 'trim_start', 'trim_end', 'trim_start_matches', 'trim_end_matches', 'trim_ascii'), stop_named=False)
+                if any((v or '').startswith('trim') for v in via):
+                    ok = True
+                # or it is itself the result of a trim call
+                for _bb, kind, d in x.defs().get(l, ()):
+                    if kind == 'call' and (cname(d) or '').startswith('trim'):
+                        ok = True
+            if not ok and x is not b:
+                # the lookup sits in a closure of an adaptor chain: `.split(',').map(|s| s.trim..()).map(|s| lookup(s))` - walk the
+                # chain back from the adaptor that takes this closure to the split, looking for a stage that trims each piece
+                def closure_of(body, op):
+                    l_ = op_local(op)
+                    for _b2, k2, rv2 in body.defs().get(l_, ()) if l_ is not None else ():
+                        if k2 == 'stmt' and isinstance(rv2.get('agg'), dict) and 'closure' in rv2['agg']:
+                            return rv2['agg']['closure']
+                    return None
+                for pb in bodies:
+                    for bb2, t2 in pb.calls():
+                        if len(t2['args']) < 2 or closure_of(pb, t2['args'][1]) != x.path:
+                            continue
+                        cur = op_local(t2['args'][0])
+                        for _ in range(12):
+                            dcalls = [d for _b3, k3, d in pb.defs().get(cur, ()) if k3 == 'call'] if cur is not None else []
+                            if not dcalls:
+                                break
+                            d = dcalls[0]
+                            nm = cname(d) or ''
+                            if nm.startswith('split'):
+                                break
+                            if nm in ('map', 'inspect', 'filter_map') and len(d['args']) > 1:
+                                cp = closure_of(pb, d['args'][1])
+                                cbody = facts.bodies.get(cp) if cp else None
+                                if cbody is not None and any((cname(ct) or '').startswith('trim') for _b4, ct in cbody.calls()):
+                                    ok = True
+                            cur = op_local(d['args'][0]) if d['args'] else None
+            if not ok:
+                # the callee may trim its argument itself
+                c = callee_of(t)
+                cb = facts.bodies.get(c.get('resolved') or c.get('path') or '')
+                if cb is not None and any((cname(ct) or '').startswith('trim') for _b, ct in cb.calls()):
+                    ok = True
+            if not ok:
+                bad.append('line %s: the piece handed to get_start_state_by_name is not trimmed' % t.get('line'))
+    if not n:
+        return res.lost(R, 'parse_start_states no longer looks names up through get_start_state_by_name')
+    if bad:
+        res.bad(R, 'names-trimmed', loc_of(b), '; '.join(bad[:2]) + ': `<A, B>` is refused because ` B` is looked up with its blank', {'function': b.path})
+    else:
+        res.ok(R, 'names-trimmed', loc_of(b), 'each piece of the comma-separated list is trimmed before it is looked up (%d lookups)' % n)
+
+
 def run(facts, res):
     r1111(facts, res)
+    r1112(facts, res)
     r114(facts, res)
     r1110(facts, res)
     r119(facts, res)
